@@ -348,4 +348,10 @@ def initState (nq : Nat) (ngates : Nat) (max : Nat) : State :=
     schedule := [], schedLock := none, maxThreads := max, readyLock := [], ready := [], opFut := [], opSf := [], sfs := [], dropped := [], parkToken := [], taskWoken := []
     acts := [], nextOp := 0, holder := List.replicate nq none }
 
+/-- Initial states in which some objects have already panicked (their operation's panic has finished unwinding): `ps[q] = true`
+means queue `q` starts in state `panicked`.  C15 speaks about exactly the executions that start there. -/
+def initStateP (ps : List Bool) (ngates : Nat) (max : Nat) : State :=
+  { (initState ps.length ngates max) with
+    qs := ps.map (fun p => { state := if p then .panicked else .idle, jobs := [], waiters := [] }) }
+
 end Desync
